@@ -80,4 +80,66 @@ vpv_cell!(#[kani::stub(std::hash::RandomState::new, stub_random_state)] #[kani::
     std::mem::forget(g); std::mem::forget(et);
     ok });
 
-vpv_replay_table!(c34_matches_len2, c34_matches_len3__thorough, c34_find_target_two_routes, c34_find_target_two_patterns);
+
+// ---- ReplicaGroup::select_replica: BOUNDED STAND-IN (native enumeration).  The function contains a tracing::warn!, and every function
+// reaching tracing's thread-local dispatcher crashes kani-compiler 0.68, so it cannot be put under Kani.
+// Round-robin: for 1..=6 replicas, every start value of the counter in 0..=2100 (and a few large ones), over EVERY run of up to 40 consecutive
+// injections the replica loads differ by at most one and each injection picks an existing replica.  Hash-key: the same key value always
+// selects the same replica (singly, repeatedly, interleaved with other keys), a missing key always selects one fixed replica.
+vpv_native!(c34_select_replica_round_robin, "C34/ReplicaGroup::select_replica/round-robin: over any run of injections replica loads differ by at most one (native enumeration: 1..=6 replicas x 2104 counter starts x runs <= 40)", {
+    use crate::pipeline_group::{ReplicaGroup, PartitionStrategy};
+    let empty = serde_json::Map::new();
+    let mut ok = true; let mut shown = 0;
+    for n in 1..=6usize {
+        let names: Vec<String> = (0..n).map(|i| format!("p#{}", i)).collect();
+        let mut starts: Vec<usize> = (0..=2100usize).collect();
+        starts.extend([4095usize, 65535, 1 << 20, (1 << 32) - 1, (1usize << 32) + 5]);
+        for c0 in starts {
+            let good = vpv_enum_try(|| format!("replicas={} counter_start={} (round-robin, runs of up to 40 injections)", n, c0), || {
+                let g = ReplicaGroup::new(String::from("p"), names.clone(), PartitionStrategy::RoundRobin);
+                g.counter.store(c0, std::sync::atomic::Ordering::Relaxed);
+                let mut loads = vec![0usize; n];
+                for _ in 0..40 {
+                    let r = g.select_replica(&empty).to_string();
+                    match names.iter().position(|x| *x == r) { Some(i) => loads[i] += 1, None => return false }
+                    let (mx, mn) = (*loads.iter().max().unwrap(), *loads.iter().min().unwrap());
+                    if mx - mn > 1 { return false; }
+                }
+                true
+            });
+            if !good { ok = false; shown += 1; if shown >= 3 { return false; } }
+        }
+    }
+    ok
+});
+vpv_native!(c34_select_replica_hash_key, "C34/ReplicaGroup::select_replica/hash-key: equal key values always select the same existing replica; a missing key selects one fixed replica (native enumeration: 1..=6 replicas x 64 key values x 3 rounds)", {
+    use crate::pipeline_group::{ReplicaGroup, PartitionStrategy};
+    let mut ok = true; let mut shown = 0;
+    for n in 1..=6usize {
+        let names: Vec<String> = (0..n).map(|i| format!("p#{}", i)).collect();
+        let good = vpv_enum_try(|| format!("replicas={} (hash-key on field k, 64 key values, 3 interleaved rounds)", n), || {
+            let g = ReplicaGroup::new(String::from("p"), names.clone(), PartitionStrategy::HashKey(String::from("k")));
+            let keys: Vec<serde_json::Value> = (0..32).map(|i| serde_json::Value::from(i as i64)).chain((0..32).map(|i| serde_json::Value::from(format!("key{}", i)))).collect();
+            let mut first: Vec<Option<String>> = vec![None; keys.len()];
+            let mut missing: Option<String> = None;
+            for _round in 0..3 {
+                for (i, k) in keys.iter().enumerate() {
+                    let mut f = serde_json::Map::new();
+                    f.insert(String::from("k"), k.clone());
+                    f.insert(String::from("other"), serde_json::Value::from(i as i64));
+                    let r = g.select_replica(&f).to_string();
+                    if !names.contains(&r) { return false; }
+                    match &first[i] { None => first[i] = Some(r), Some(p) => if *p != r { return false; } }
+                    let mut e = serde_json::Map::new();
+                    e.insert(String::from("other"), serde_json::Value::from(i as i64));
+                    let r2 = g.select_replica(&e).to_string();
+                    match &missing { None => missing = Some(r2), Some(p) => if *p != r2 { return false; } }
+                }
+            }
+            true
+        });
+        if !good { ok = false; shown += 1; if shown >= 3 { return false; } }
+    }
+    ok
+});
+vpv_replay_table!(c34_matches_len2, c34_matches_len3__thorough, c34_find_target_two_routes, c34_find_target_two_patterns, c34_select_replica_round_robin, c34_select_replica_hash_key);
